@@ -6,7 +6,8 @@
 // inner vector is overwritten by the outcome of a later one - and a point is written as exactly the bytes its own
 // Bytes / RawBytes method returned. Readers, writers and codecs are opaque calls whose error results are captured
 // at every call ("#*"); the loops carry "no failure so far". The slices-of-points cases of the decoder (parallel
-// recovery of Y) and the reflection fallback are not under contract.
+// recovery of Y: see the g1-points / g2-points variants below) are under contract as far as every iteration of the
+// recovery closure is concerned; the reflection fallback is not under contract.
 
 package bw6761
 
@@ -472,6 +473,144 @@ package bw6761
 //@ + invariant[no-failure-so-far] !failed
 //@ ensures[no-hidden-error] isnil(err) ==> !failed
 //@ ensures[byte-counter] dec.n == old(dec.n) + total
+//@ modifies dec, v
+//@ end
+
+//@ func Decoder.Decode
+//@ variant g1-points
+//@ dyntype v *[]G1Affine
+//@ option opaque-calls
+//@ option nomerge
+//@ option struct-slices
+//@ option execute-as-range
+//@ ghost failed = false
+//@ ghost ydone = false
+//@ ghost sgdone = false
+//@ ghost cmp = false
+//@ cut after call ReadFull #*
+//@ + ghost failed = failed || !isnil(callresult1)
+//@ cut after call readUint32 #*
+//@ + ghost failed = failed || !isnil(callresult1)
+//@ cut after call setBytes #*
+//@ + ghost failed = failed || !isnil(callresult1)
+//@ cut after call unsafeSetCompressedBytes #*
+//@ + ghost failed = failed || !isnil(callresult1)
+//@ cut before call unsafeComputeY #*
+//@ + invariant[subgroup-flag] callarg1 == dec.subGroupCheck
+//@ cut after call unsafeComputeY #*
+//@ + ghost failed = failed || !isnil(callresult)
+//@ + ghost ydone = true
+//@ + ghost sgdone = true
+//@ cut after call IsInSubGroup #*
+//@ + ghost failed = failed || !callresult
+//@ + ghost sgdone = true
+//@ loop 0
+//@ + invariant[index] 0 <= iter && iter <= 1099511627776
+//@ + invariant[no-failure-so-far] !failed
+//@ loop 1
+//@ + invariant[index] 0 <= iter && iter <= 1099511627776
+//@ + invariant[no-failure-so-far] !failed
+//@ loop 2
+//@ + invariant[index] 0 <= iter && iter <= 1099511627776
+//@ + invariant[no-failure-so-far] !failed
+//@ loop 3
+//@ + invariant[index] 0 <= iter && iter <= 1099511627776
+//@ + invariant[no-failure-so-far] !failed
+//@ loop 4
+//@ + invariant[index] 0 <= iter && iter <= 1099511627776
+//@ + invariant[no-failure-so-far] !failed
+//@ loop 5
+//@ + invariant[index] 0 <= iter && iter <= 1099511627776
+//@ + invariant[no-failure-so-far] !failed
+//@ loop 6
+//@ + invariant[index] 0 <= iter && iter <= 1099511627776
+//@ + invariant[no-failure-so-far] !failed
+//@ loop 7
+//@ + invariant[index] 0 <= iter && iter <= 1099511627776
+//@ + invariant[no-failure-so-far] !failed
+//@ loop 8
+//@ + invariant[index] 0 <= iter && iter <= 1099511627776
+//@ + invariant[no-failure-so-far] !failed
+//@ loop 9
+//@ + invariant[index] 0 <= iter && iter <= 1099511627776
+//@ + invariant[no-failure-so-far] !failed
+//@ inner *
+//@ loop 0
+//@ + ghost ydone = false
+//@ + ghost sgdone = false
+//@ + ghost-post cmp = compressed[i]
+//@ + invariant[errors-counted] 0 <= i && i <= 1099511627776 && 0 <= nbErrs && nbErrs <= i && (failed ==> nbErrs > 0)
+//@ + backedge[every-point-checked] (cmp ==> ydone) && (dec.subGroupCheck ==> sgdone)
+//@ ensures[no-hidden-error] isnil(err) ==> !failed
+//@ modifies dec, v
+//@ end
+
+//@ func Decoder.Decode
+//@ variant g2-points
+//@ dyntype v *[]G2Affine
+//@ option opaque-calls
+//@ option nomerge
+//@ option struct-slices
+//@ option execute-as-range
+//@ ghost failed = false
+//@ ghost ydone = false
+//@ ghost sgdone = false
+//@ ghost cmp = false
+//@ cut after call ReadFull #*
+//@ + ghost failed = failed || !isnil(callresult1)
+//@ cut after call readUint32 #*
+//@ + ghost failed = failed || !isnil(callresult1)
+//@ cut after call setBytes #*
+//@ + ghost failed = failed || !isnil(callresult1)
+//@ cut after call unsafeSetCompressedBytes #*
+//@ + ghost failed = failed || !isnil(callresult1)
+//@ cut before call unsafeComputeY #*
+//@ + invariant[subgroup-flag] callarg1 == dec.subGroupCheck
+//@ cut after call unsafeComputeY #*
+//@ + ghost failed = failed || !isnil(callresult)
+//@ + ghost ydone = true
+//@ + ghost sgdone = true
+//@ cut after call IsInSubGroup #*
+//@ + ghost failed = failed || !callresult
+//@ + ghost sgdone = true
+//@ loop 0
+//@ + invariant[index] 0 <= iter && iter <= 1099511627776
+//@ + invariant[no-failure-so-far] !failed
+//@ loop 1
+//@ + invariant[index] 0 <= iter && iter <= 1099511627776
+//@ + invariant[no-failure-so-far] !failed
+//@ loop 2
+//@ + invariant[index] 0 <= iter && iter <= 1099511627776
+//@ + invariant[no-failure-so-far] !failed
+//@ loop 3
+//@ + invariant[index] 0 <= iter && iter <= 1099511627776
+//@ + invariant[no-failure-so-far] !failed
+//@ loop 4
+//@ + invariant[index] 0 <= iter && iter <= 1099511627776
+//@ + invariant[no-failure-so-far] !failed
+//@ loop 5
+//@ + invariant[index] 0 <= iter && iter <= 1099511627776
+//@ + invariant[no-failure-so-far] !failed
+//@ loop 6
+//@ + invariant[index] 0 <= iter && iter <= 1099511627776
+//@ + invariant[no-failure-so-far] !failed
+//@ loop 7
+//@ + invariant[index] 0 <= iter && iter <= 1099511627776
+//@ + invariant[no-failure-so-far] !failed
+//@ loop 8
+//@ + invariant[index] 0 <= iter && iter <= 1099511627776
+//@ + invariant[no-failure-so-far] !failed
+//@ loop 9
+//@ + invariant[index] 0 <= iter && iter <= 1099511627776
+//@ + invariant[no-failure-so-far] !failed
+//@ inner *
+//@ loop 0
+//@ + ghost ydone = false
+//@ + ghost sgdone = false
+//@ + ghost-post cmp = compressed[i]
+//@ + invariant[errors-counted] 0 <= i && i <= 1099511627776 && 0 <= nbErrs && nbErrs <= i && (failed ==> nbErrs > 0)
+//@ + backedge[every-point-checked] (cmp ==> ydone) && (dec.subGroupCheck ==> sgdone)
+//@ ensures[no-hidden-error] isnil(err) ==> !failed
 //@ modifies dec, v
 //@ end
 
